@@ -75,6 +75,16 @@ fn record_with(code: i32) -> Vec<u8> {
     b
 }
 
+fn record2_with(code: i32) -> Vec<u8> {
+    // a file of one record that holds nothing but its type word (the way a null shape is stored)
+    let mut b = header_with(1);
+    b[24..28].copy_from_slice(&56i32.to_be_bytes());
+    b.extend_from_slice(&1i32.to_be_bytes());
+    b.extend_from_slice(&2i32.to_be_bytes());
+    b.extend_from_slice(&code.to_le_bytes());
+    b
+}
+
 fn route_result(kind: &str, code: i32) -> (String, i64) {
     let r = guarded(|| {
         if kind == "header" {
@@ -95,8 +105,18 @@ fn route_result(kind: &str, code: i32) -> (String, i64) {
                     (j["err"].as_str().unwrap().to_string(), j["code"].as_i64().unwrap_or(0))
                 }
             }
+        } else if kind == "typed" || kind == "typed2" {
+            // the typed route (the file is read as Point records): full-size record / record of two words
+            let b = if kind == "typed" { record_with(code) } else { record2_with(code) };
+            match ShapeReader::new(Cursor::new(b)).and_then(|mut r| r.iter_shapes_as::<Point>().next().unwrap()) {
+                Ok(_) => ("ok".to_string(), 1),
+                Err(e) => {
+                    let j = err_json(&e);
+                    (j["err"].as_str().unwrap().to_string(), j["code"].as_i64().unwrap_or(0))
+                }
+            }
         } else {
-            let b = record_with(code);
+            let b = if kind == "record2" { record2_with(code) } else { record_with(code) };
             match ShapeReader::new(Cursor::new(b)).and_then(|mut r| r.iter_shapes().next().unwrap()) {
                 Ok(s) => ("ok".to_string(), variant_code(&s) as i64),
                 Err(e) => {
@@ -145,7 +165,7 @@ pub fn run_c19(a: &Args, out: &PathBuf) -> Value {
     }
     interesting.sort();
     interesting.dedup();
-    for kind in ["header", "shxheader", "record"] {
+    for kind in ["header", "shxheader", "record", "record2", "typed", "typed2"] {
         for &v in &interesting {
             let (res, code) = route_result(kind, v);
             tr.emit(json!({"ev": "route", "kind": kind, "value": v, "res": res, "code": code}));
@@ -153,7 +173,7 @@ pub fn run_c19(a: &Args, out: &PathBuf) -> Value {
     }
     // bulk: the routes must agree with ShapeType::from on validity and carry the value
     let mut r = Rng::new(seed ^ 0xc19);
-    for kind in ["header", "shxheader", "record"] {
+    for kind in ["header", "shxheader", "record", "record2", "typed", "typed2"] {
         let mut tested = 0u64;
         let mut bad: Vec<i64> = vec![];
         let mut check = |v: i32, bad: &mut Vec<i64>| {
@@ -161,7 +181,7 @@ pub fn run_c19(a: &Args, out: &PathBuf) -> Value {
             let valid = ShapeType::from(v).is_some();
             // a valid code in a record of another layout may fail for other reasons; never as an invalid type
             let ok = if valid {
-                if kind != "record" { res == "ok" && code == v as i64 } else { res != "invalid_type" && res != "panic" }
+                if kind == "header" || kind == "shxheader" { res == "ok" && code == v as i64 } else { res != "invalid_type" && res != "panic" }
             } else {
                 res == "invalid_type" && code == v as i64
             };
